@@ -429,6 +429,7 @@ func TestVerifC19ReservationReplay(t *testing.T) {
 		dead := false
 		sawMulti, sawDup, sawPodFinished, sawSelfEvent, sawAnyOrder, sawDeadResv, sawOnce, sawRestricted, sawIndexDiff := false, false, false, false, false, false, false, false, false
 		maxAssigned, checks := 0, 0
+		sawDeleted := false
 
 		sorted := func(pred func(types.UID, c19Obj) bool) []types.UID {
 			var out []types.UID
@@ -711,6 +712,7 @@ func TestVerifC19ReservationReplay(t *testing.T) {
 				}
 				delete(persisted, u)
 				delete(assigned, u)
+				sawDeleted = true
 				hist = append(hist, fmt.Sprintf("delete %s", u))
 			},
 			// A pod that finishes (phase Succeeded/Failed) leaves the scheduler's pod informer, which carries the field
@@ -800,6 +802,7 @@ func TestVerifC19ReservationReplay(t *testing.T) {
 		c.ClassIf(sawMulti, "reservation-with>=2-assigned-pods")
 		c.ClassIf(sawDup, "duplicate-or-noop-event")
 		c.ClassIf(sawPodFinished, "pod-finished(delivered-as-delete)")
+		c.ClassIf(sawDeleted, "pod-deleted")
 		c.ClassIf(sawSelfEvent, "live-saw-own-bind-event")
 		c.ClassIf(sawAnyOrder, "pod-event-before-reservation")
 		c.ClassIf(sawDeadResv, "reservation-ended-with-history")
